@@ -43,6 +43,9 @@ def handlePlanFit (st : St) (op : String) (j : Json) : Option (D (St × Json)) :
     | "clear_incompatible" =>
       return (st, ePStF 0 (ps.clearIncompatibleF S (← nat (← field j "pos")) (← nat (← field j "type"))))
     | k => throw s!"bad planNodeOpF kind {k}"
+  | "plainType" => some do
+    let S ← getSchema st j
+    return (st, ok (Json.bool (S.plainType (← nat (← field j "type")))))
   | "fillRequest" => some do
     -- the filler request of `clear_incompatible` on a node value: [valid end, size of the fillers, can_replace]
     let S ← getSchema st j
